@@ -72,12 +72,27 @@ bool KnownFindings::load(const std::string& path) {
     return true;
 }
 int KnownFindings::match(const std::string& prop, VKind kind, const std::string& token) const {
-    for (size_t i = 0; i < entries.size(); i++) {
-        const Entry& e = entries[i];
-        if (e.fixed || e.property != prop || e.kind != vkind_name(kind)) continue;
-        if (e.token == token) return (int)i;
+    auto find1 = [&](const std::string& tok) -> int {
+        for (size_t i = 0; i < entries.size(); i++) {
+            const Entry& e = entries[i];
+            if (e.fixed || e.property != prop || e.kind != vkind_name(kind)) continue;
+            if (e.token == tok) return (int)i;
+        }
+        return -1;
+    };
+    // "alias:a,b" is a set of alias kinds: known only if every member is listed on its own
+    if (token.compare(0, 6, "alias:") == 0 && token.find(',') != std::string::npos) {
+        int first = -1; size_t pos = 6;
+        while (pos <= token.size()) {
+            size_t e = token.find(',', pos); if (e == std::string::npos) e = token.size();
+            int k = find1("alias:" + token.substr(pos, e - pos));
+            if (k < 0) return -1;
+            if (first < 0) first = k;
+            pos = e + 1;
+        }
+        return first;
     }
-    return -1;
+    return find1(token);
 }
 
 // ---------------------------------------------------------------- relevance of violation kinds per property
